@@ -517,6 +517,24 @@ func ruleC12Listener(c *Ctx) {
 
 // assertSource: for v = extract(typeassert,ok x.(T)) #0 return x.
 func assertSource(v ssa.Value) ssa.Value {
+	// a join of "the asserted value" with nil (the failing arm of a helper): the asserted value
+	if phi, ok := v.(*ssa.Phi); ok {
+		var src ssa.Value
+		for _, e := range phi.Edges {
+			if isNilConst(e) {
+				continue
+			}
+			s := assertSource(e)
+			if src != nil && src != s {
+				return v
+			}
+			src = s
+		}
+		if src != nil {
+			return src
+		}
+		return v
+	}
 	if ex, ok := v.(*ssa.Extract); ok && ex.Index == 0 {
 		if ta, ok := ex.Tuple.(*ssa.TypeAssert); ok {
 			return ta.X
